@@ -29,8 +29,11 @@ fn safe_join(root: &Path, rel: &str) -> Option<PathBuf> {
 }
 
 fn tmp_of(dst: &Path) -> PathBuf {
+    // Staging happens OUTSIDE the commit lock, and every client has its own
+    // server process on the same root: the name must be private to this
+    // process or two concurrent Puts to one path write the same file.
     let mut s = dst.as_os_str().to_owned();
-    s.push(".copia-tmp");
+    s.push(format!(".{}.copia-tmp", std::process::id()));
     PathBuf::from(s)
 }
 
@@ -149,21 +152,29 @@ fn handle_put<R: Read, W: Write>(
     let resp = with_commit_lock(lockdir, || {
         let current = current_hash(&dst);
         match cas_decide(current, expected) {
-            Cas::Commit => {
-                let _ = std::fs::rename(&tmp, &dst);
-                Response::PutResult {
+            Cas::Commit => match std::fs::rename(&tmp, &dst) {
+                Ok(()) => Response::PutResult {
                     committed: true,
                     current: Some(hash),
+                },
+                Err(e) => {
+                    let _ = std::fs::remove_file(&tmp);
+                    Response::Error(format!("commit failed: {e}"))
                 }
-            }
+            },
             Cas::Conflict => {
                 // Never overwrite on a stale CAS — land a conflict-copy.
                 let mut cn = dst.as_os_str().to_owned();
                 cn.push(format!(".conflict-{}", super::wire::short_hash(&hash)));
-                let _ = std::fs::rename(&tmp, PathBuf::from(cn));
-                Response::PutResult {
-                    committed: false,
-                    current,
+                match std::fs::rename(&tmp, PathBuf::from(cn)) {
+                    Ok(()) => Response::PutResult {
+                        committed: false,
+                        current,
+                    },
+                    Err(e) => {
+                        let _ = std::fs::remove_file(&tmp);
+                        Response::Error(format!("conflict-copy failed: {e}"))
+                    }
                 }
             }
         }
